@@ -20,7 +20,9 @@ def reply(lines=(), st="OK", code="", cargs=(), text=NOITEM, fam="status", tag="
 
 
 CODES = [("", ()), ("WARNINGS", ()), ("NONEXISTENT", ()), ("QUOTA/MAXSIZE", ()),
-         ("TAG", (item("q", "t1"),)), ("TAG", (item("l", "t"),)), ("REFERRAL", (item("q", "sieve://x"),))]
+         ("TAG", (item("q", "t1"),)), ("TAG", (item("l", "t"),)), ("REFERRAL", (item("q", "sieve://x"),)),
+         # extension codes may carry several parameters (RFC 5804: extension-data = extension-item *(SP extension-item))
+         ("X-LIMIT", (item("l", "foo"), item("l", "ba r"), item("q", "z")))]
 TEXTS = [NOITEM, item("q", "txt"), item("q", 'a "q" b'), item("q", ""), item("l", "txt"), item("l", ""),
          item("l", "l1\r\nl2"), item("q", "é"), item("q", "near {2} over the {64+} limit"),
          # literal texts whose own last octets are line ends (multi-line error reports end every line with CRLF)
